@@ -29,6 +29,7 @@ import (
 	dtlshandshake "github.com/pion/dtls/v3/internal/handshake"
 	dtlsstate "github.com/pion/dtls/v3/internal/state"
 	"github.com/pion/dtls/v3/pkg/crypto/clientcertificate"
+	"github.com/pion/dtls/v3/pkg/crypto/elliptic"
 	"github.com/pion/dtls/v3/pkg/protocol"
 	"github.com/pion/dtls/v3/pkg/protocol/recordlayer"
 )
@@ -418,6 +419,15 @@ func zzC19ResumeEntryPointKeepsCIDs() {
 	if withGen {
 		cfg.ConnectionIDGenerator = func() []byte { return []byte{9, 9, 9} }
 	}
+	// the version / group options of the resuming configuration do not decide whether the exported DTLS 1.2 session
+	// is used: a dual-stack configuration (also one that spells out the default groups, hybrid group included) resumes it
+	switch zzsymChoice("resume_versions", 3) {
+	case 1:
+		cfg.MinVersion, cfg.MaxVersion = protocol.Version1_2, protocol.Version1_3
+	case 2:
+		cfg.MaxVersion = protocol.Version1_3
+		cfg.EllipticCurves = []elliptic.Curve{elliptic.X25519MLKEM768, elliptic.X25519, elliptic.P256, elliptic.P384}
+	}
 	c, err := resumeWithConfig(exported, zzC19PC{}, &net.UDPAddr{Port: 1}, cfg)
 	zzsymAssert(err == nil && c != nil, "resume_entry_ok")
 	_, err = c.prepareHandshakeStart(context.Background())
@@ -427,6 +437,9 @@ func zzC19ResumeEntryPointKeepsCIDs() {
 		zzsymEqBytes(common.LocalConnectionID(), exported.localConnectionID), "resumed_local_cid_is_the_exported_one")
 	zzsymAssert(len(common.RemoteConnectionID) == len(exported.remoteConnectionID) &&
 		zzsymEqBytes(common.RemoteConnectionID, exported.remoteConnectionID), "resumed_remote_cid_is_the_exported_one")
+	inbound := common.LocalConnectionIDForInboundRecords()
+	zzsymAssert(len(inbound) == len(exported.localConnectionID) && zzsymEqBytes(inbound, exported.localConnectionID),
+		"resumed_inbound_records_are_split_with_the_exported_local_cid")
 	zzsymAssert(common.LocalEpoch() == 1 && common.RemoteEpoch() == 1, "resumed_epochs")
 	zzsymAssert(common.LocalSequenceNumber[1] == exported.sequenceNumber, "resumed_next_sequence_number")
 	if withGen {
